@@ -22,11 +22,14 @@ What is proved about the model for *all* trees, paths, registries: the theorems 
 proved as one end-to-end theorem: that the forest `processAll` returns is `Built` (the composition
 through `toEntry`, `augmentLoop`, the deviation pass).  The three constructors of `Built` are exactly
 the stamp-relevant steps of `processAll` — `augmentStep_is_graft` shows a successful augment step is
-the `graft` constructor's forest with the augmenting tree's owner namespace, `uses_no_stamp` /
-`include_no_stamp` show the conversion steps keep trees stamp-free — and the remaining steps
-(error recording, `Find` creating an absent rpc input/output, deviations) write no stamp; the
-end-to-end claim is what the correspondence runner checks on generated schemas with a Go-side
-provenance oracle.  See `processAll_built_statement` for the statement kept visible.
+the `graft` constructor's forest with the augmenting tree's owner namespace, `uses_no_stamp` and
+`conversion_ops_no_stamp` show that every tree-building operation `toEntry` applies (add a child,
+merge without a namespace for uses and include, record errors, set a data field) keeps trees
+stamp-free — and the remaining steps (error recording, `Find` creating an absent rpc
+input/output, deviations) write no stamp.  The induction over `toEntry`'s fuel recursion that
+turns these into "every converted tree is stamp-free" (`toEntry_noStamp_statement`) and the
+composition (`processAll_built_statement`) are kept visible as statements; the end-to-end claim is
+what the correspondence runner checks on generated schemas with a Go-side provenance oracle.
 -/
 namespace Goyang.Props.C12
 open Goyang.Model
@@ -164,6 +167,22 @@ theorem uses_no_stamp (reg : Registry) (f : Forest) (id : Nat) (e oe : Entry)
     unfold Lemmas.ConfigNs.nsOfTree Entry.stampAt
     rw [Lemmas.ConfigNs.stampGo_noStampBelow _ _ _ hns]
 
+/-- The operations `toEntry` builds trees with keep them stamp-free: adding a child, merging a
+used grouping or an included submodule (no namespace), recording or importing errors, and any
+update of the node's data that leaves the stamp field alone. -/
+theorem conversion_ops_no_stamp (e v : Entry) (he : noStamp e = true) (hv : noStamp v = true) :
+    (∀ key, noStamp (e.add key v) = true) ∧
+    noStamp (e.merge none v) = true ∧
+    noStamp (e.importErrors v) = true ∧
+    (∀ x, noStamp (e.addErr x) = true) ∧ (∀ xs, noStamp (e.addErrs xs) = true) ∧
+    (∀ f : EData → EData, (∀ d, (f d).ns = d.ns) → noStamp (e.withD f) = true) := by
+  refine ⟨fun key => Lemmas.ConfigNs.noStamp_add e key v he hv, Lemmas.ConfigNs.noStamp_merge_none e v he hv,
+    ?_, fun x => ?_, fun xs => ?_, fun f hf => ?_⟩
+  · rw [Lemmas.ConfigNs.noStamp_importErrors]; exact he
+  · rw [Lemmas.ConfigNs.noStamp_addErr]; exact he
+  · rw [Lemmas.ConfigNs.noStamp_addErrs]; exact he
+  · rw [Lemmas.ConfigNs.noStamp_withD e f hf]; exact he
+
 /-- Frame for uses / include in an already stamped tree: whatever stamps exist stay where they
 are; the walk through a merged child continues with the child's own stamps only. -/
 theorem merge_none_frame (e oe : Entry) (k : String) (c : Entry) (h : e.child? k = some c) :
@@ -209,7 +228,10 @@ theorem instantiatingModule_exact (reg : Registry) (f : Forest) (loc : Loc) :
 `id` merges the augment's entry under the target with the namespace of the module tree `id`
 belongs to, so a `Built` forest stays `Built` and exactly the nodes at and below the added children
 are placed by module `id` (stated for one pending augment, and for a `Find` that did not have to
-create an absent rpc input/output on the way). -/
+create an absent rpc input/output on the way).  (`Find` splits its path with `String.splitOn`, which
+the kernel cannot evaluate, so `hfind` is not instantiated by an `example` here; every augment the
+correspondence run applies is an instance.  The other hypotheses are those of `Built.graft`, shown
+satisfiable below.) -/
 theorem augmentStep_is_graft (reg : Registry) (id : Nat) (addErrors : Bool) (s : PState) (a : Entry)
     (t : Nat) (path : Path) (root te r0 : Entry) (prov : Loc → Option Nat)
     (hb : Built reg s.forest prov)
@@ -351,6 +373,21 @@ example : instantiatingModuleAt regRev { trees := [(0, nd "m" (kids := [nd "c"])
     (0, [.child "c"]) = some "m" := by decide
 
 /-! ### the end-to-end statement, kept visible -/
+
+/-- Not proved as a theorem: every tree `toEntry` returns, and every tree it keeps in its caches,
+is stamp-free, provided the caches it starts from are.  Proof route: induction on the fuel with
+this invariant; every step of the conversion is one of the operations of
+`conversion_ops_no_stamp` or a literal node without a stamp.  Not carried out because the
+conversion function is one 150-line definition that is still being extended (a proof by case
+analysis over its text would have to follow every edit); the premise of `Built.init` for the
+forest `processAll` starts from rests on it. -/
+def toEntry_noStamp_statement : Prop :=
+  ∀ (env : Env) (fuel : Nat) (root : Mod) (scope : List Stmt) (n : Stmt) (visiting : List NodeId) (st : TState),
+    ((∀ x ∈ st.cache, noStamp x.2 = true) ∧ (∀ x ∈ st.gcache, noStamp x.2 = true) ∧
+      (∀ x ∈ st.augs, noStampL x.2 = true)) →
+    let r := toEntry env fuel root scope n visiting st
+    noStamp r.1 = true ∧ (∀ x ∈ r.2.cache, noStamp x.2 = true) ∧ (∀ x ∈ r.2.gcache, noStamp x.2 = true) ∧
+      (∀ x ∈ r.2.augs, noStampL x.2 = true)
 
 /-- Not proved as a theorem (see the header): the forest of an error-free `processAll` run
 without deviations is `Built`, with a provenance that assigns every node of the initial trees to
